@@ -40,7 +40,7 @@ def oracle(freq, dirs, E, tail=True):
         dd = 1.0
         S = [float(E[i, 0]) for i in range(nf)]
     else:
-        dd = abs(float(dirs[1]) - float(dirs[0])) if len(dirs) > 1 else 1.0
+        dd = gen.bin_width(dirs)
         S = [dd * math.fsum(E[i, :]) for i in range(nf)]
     out = {}
     m = [math.fsum(S[i] * df[i] * f[i] ** k for i in range(nf)) for k in range(5)]
